@@ -266,10 +266,23 @@ def run(ctx):
             want = op("concat", sp.Tuple(op("item", P("dsA"), k), op("item", P("dsB"), k)), dimv)
             okc = T.equivalent(inner, want) == T.Verdict.EQUAL and guard in (T.CMP("ne", k, dimv), T.NOT(T.CMP("eq", k, dimv)))
             okall = len(k.args) >= 1 and k.args[0] in (T.to_term(A), T.to_term(A.fields["dataset"]) if hasattr(A, "fields") else None)
-        ctx.expect(okc, "R15.3", "concatenate_spectra[order and dim]",
+        # a definite "wrong" needs the concatenation to be understood: a concat of per-variable entries of the inputs.  Pieces
+        # gathered through containers the engine does not follow (lists in a dict keyed by a symbolic name) are not a verdict.
+        understood = False
+        if len(fam) == 1:
+            inner_ = fam[0][1].args[1] if fname(fam[0][1]) == "guarded" else fam[0][1]
+            understood = fname(inner_) == "concat" and isinstance(inner_.args[0], sp.Tuple) and len(inner_.args[0].args) >= 1 and all(
+                fname(x) == "item" and x.args[0] in (P("dsA"), P("dsB")) for x in inner_.args[0].args)
+            kk = fam[0][0]
+            if not okall and fname(kk) == "elem" and fname(kk.args[0]) == "comp_list" and len(kk.args[0].args) == 3 \
+                    and kk.args[0].args[0] == op("elem", kk.args[0].args[1]) and kk.args[0].args[1] == T.to_term(A):
+                # the names are first gathered as [name for name in first if name != dim]
+                okall = kk.args[0].args[2] in (T.CMP("ne", dimv, op("elem", T.to_term(A))), T.CMP("ne", op("elem", T.to_term(A)), dimv))
+        ctx.expect(okc if (okc or understood or not fam) else None, "R15.3", "concatenate_spectra[order and dim]",
                    "every variable is concatenated over the inputs in their given order along the one requested dimension", cc.loc(),
                    derived=T.show(fam[0][1], 200) if fam else "no per-variable entry")
-        ctx.expect(okall, "R15.3", "concatenate_spectra[all variables]", "all variables of the (first) input are concatenated", cc.loc(),
+        ctx.expect(okall if (okall or understood or not fam) else None, "R15.3", "concatenate_spectra[all variables]",
+                   "all variables of the (first) input are concatenated", cc.loc(),
                    derived=T.show(fam[0][0], 120) if fam else "")
         ctx.absorb(itc)
     # __getitem__ splits spectral / space-time indices; isel/sel apply to every variable
